@@ -1387,7 +1387,10 @@ fn setup_argument_parser() -> ArgumentParser<ElfArgs> {
         .long("wrap")
         .help("Use a wrapper function")
         .execute(|args, _modifier_stack, value| {
-            args.wrap.push(value.to_owned());
+            // Wrapping the same symbol twice would make `__real_sym` point at the wrapper.
+            if !args.wrap.iter().any(|existing| existing == value) {
+                args.wrap.push(value.to_owned());
+            }
             Ok(())
         });
 
